@@ -118,7 +118,8 @@ FIRST_FACTOR = ("V", "F", "(")
 
 
 class RefParser:
-    def __init__(self, toks, right_assoc_muldiv=False, dup_last_factor=False):
+    def __init__(self, toks, right_assoc_muldiv=False, dup_last_factor=False, funcs=None):
+        self.funcs = FUNCS if funcs is None else funcs
         self.t = [t for t in toks if t[0] != "P"]
         if not self.t or self.t[-1][0] != "EOF":
             self.t.append(("EOF", ""))
@@ -218,7 +219,7 @@ class RefParser:
                 a = self.add()
                 self.eat(")")
                 self.prods.add("function")
-                fs.append(U(FUNCS[name], a))
+                fs.append(U(self.funcs[name], a))
             else:
                 self.eat("(")
                 a = self.add()
@@ -248,7 +249,7 @@ class RefParser:
 
 def ref_parse(text, **switches):
     """Returns (ast, productions used).  Raises Reject / BadNumber / BadChar."""
-    p = RefParser(ref_tokenize(text, keep_padding=False), **switches)
+    p = RefParser(ref_tokenize(text, keep_padding=False, funcs=switches.get("funcs")), **switches)
     ast = p.start()
     return ast, p.prods
 
